@@ -20,6 +20,7 @@ structure APeer (c : Client.State) (w : List WlMsg) : Prop where
   only : ∀ p : Nat, p ≠ 1 → c.peers[p]? = none
   one : ∃ ps, c.peers[1]? = some ps ∧
     ((ps.sending = .ready ∧ w = []) ∨ (ps.sending = .sending 1 ∧ ∃ m, w = [m])) ∧ ReqVals ps
+  conn1 : ∀ ps, c.peers[1]? = some ps → ∀ x : Nat, x ∈ ps.conns ↔ x = 1
 
 structure AAsk (c : Client.State) (asked : List Nat) : Prop where
   len : asked.length = c.nextQuery
@@ -35,9 +36,12 @@ def AnsOk (answered : List (Nat × Nat)) (store : KMap Nat) : Prop :=
 theorem ainv_peer {g : GS} (h : AInv g) : APeer g.s.a.client g.s.wireAB := by
   obtain ⟨ps, hps⟩ := h.peer1
   have e : apeer g.s = ps := by simp [apeer, hps]
-  refine ⟨h.peer_only, ps, hps, ?_, ?_⟩
+  refine ⟨h.peer_only, ⟨ps, hps, ?_, ?_⟩, ?_⟩
   · have := h.wire; rw [e] at this; exact this
   · intro k r hr; have := h.reqvals k r; rw [e] at this; exact this hr
+  · intro ps' hps' x
+    rw [hps] at hps'; cases hps'
+    have := h.conn1 x; rw [e] at this; exact this
 
 theorem ainv_task {g : GS} (h : AInv g) :
     TInv g.s.a.client.tasks g.s.a.client.nextTask g.s.a.client.runq g.s.a.seq (Pend g.s) :=
@@ -57,7 +61,8 @@ theorem ainv_of_parts {g : GS} (coh : g.x.sys = aSys g.s) (ginv : GInv g.x) (srv
   exact
     { coh := coh, ginv := ginv, srv_tasks := srv.tasks, srv_runq := srv.runq, srv_evq := srv.evq,
       srv_outq := srv.outq, srv_waiting := srv.waiting, peer1 := ⟨ps, hps⟩, peer_only := peer.only,
-      wire := by rw [e]; exact hw, reqvals := by rw [e]; exact hv, deadline := deadline,
+      wire := by rw [e]; exact hw, reqvals := by rw [e]; exact hv,
+      conn1 := by rw [e]; exact peer.conn1 ps hps, deadline := deadline,
       no_hit := task.no_hit, queue_ok := queue, answered_ok := ans, ids_nodup := task.ids_nodup,
       ids_lt := task.ids_lt, sched := task.sched, wait_lt := task.wait_lt, wait_inj := task.wait_inj,
       asked_len := ask.len, get_asked := ask.get_asked, want_asked := ask.want_asked }
@@ -76,10 +81,11 @@ theorem ainv_nosend {g : GS} (h : AInv g) (p c : Nat) (m : WlMsg) : Out.send p c
 
 theorem APeer.congr {c c' : Client.State} {w : List WlMsg} (h : APeer c w) (hp : c'.peers = c.peers) :
     APeer c' w := by
-  obtain ⟨h1, h2⟩ := h
+  obtain ⟨h1, h2, h3⟩ := h
   constructor
   · rw [hp]; exact h1
   · rw [hp]; exact h2
+  · rw [hp]; exact h3
 
 /-! ### Pushing a task (`get`, accepted blocks) -/
 
@@ -353,24 +359,17 @@ theorem complete_kinds (c : Client.State) (n : Nat) (r : StoreRes) :
 
 /-! ### `sendingChanged` -/
 
-theorem sendingChanged_frame (c : Client.State) (p : Nat) (st : Sending) :
-    ∃ P, Client.sendingChanged c p st = { c with peers := P } := by
-  unfold Client.sendingChanged
-  split
-  · exact ⟨_, rfl⟩
-  · exact ⟨c.peers, rfl⟩
+theorem sendingChanged_frame (c : Client.State) (p src : Nat) (st : Sending) :
+    ∃ P, Client.sendingChanged c p src st = { c with peers := P } :=
+  ClientSending.sendingChanged_frame c p src st
 
-theorem sendingChanged_peers (c : Client.State) (p : Nat) (st : Sending) (q : Nat) :
-    (Client.sendingChanged c p st).peers[q]? =
-      if q = p then (c.peers[p]?).map (fun ps => ({ ps with sending := st } : PeerSt)) else c.peers[q]? := by
-  unfold Client.sendingChanged
-  cases hp : c.peers[p]? with
-  | none =>
-    by_cases hq : q = p
-    · subst hq; simp [hp]
-    · simp [hq]
-  | some ps =>
-    simp only [ClientView.kmap_get_insert, Option.map_some]
+/-- on the one connection of the composition every report is taken -/
+theorem sendingChanged_peers (c : Client.State) (st : Sending) (q : Nat)
+    (h : ∀ ps, c.peers[1]? = some ps → ps.sending.conn? = none ∨ ps.sending.conn? = some 1) :
+    (Client.sendingChanged c 1 1 st).peers[q]? =
+      if q = 1 then (c.peers[1]?).map (fun ps => ({ ps with sending := st } : PeerSt)) else c.peers[q]? := by
+  rw [ClientSending.sendingChanged_eq_set c 1 1 st h]
+  exact ClientSending.setSending_peers c 1 st q
 
 /-! ### `incoming` (blocks from `b`) -/
 
@@ -464,6 +463,12 @@ theorem incoming_groups {c : Client.State} {w : List WlMsg} {seq : Nat} {P : Nat
         | none => simp [hpk] at hr
         | some r0 => simp only [hpk, Option.map_some, Option.some.injEq] at hr; exact .inr hr.symm
       · exact hv k r hr
+    · obtain ⟨ps', a1, a2, _⟩ := hrel.peer ps (by
+        show (c.peers.insert 1 ps)[1]? = some ps
+        rw [ClientView.kmap_get_insert]; simp)
+      intro ps'' hps'' x
+      rw [a1] at hps''; cases hps''
+      rw [a2]; exact hpeer.conn1 ps hps x
   have htF : TInv (blocksApplied c ps bs).1.tasks (blocksApplied c ps bs).1.nextTask
       (blocksApplied c ps bs).1.runq seq P := by rw [f1, f2, f3]; exact ht
   have hkF : AAsk (blocksApplied c ps bs).1 asked := by
